@@ -294,7 +294,9 @@ func run07(c drv.Case, res *drv.Result) {
 			}},
 		}
 	case "diamonds":
-		for _, nm := range []string{"a", "ab"} {
+		// the repository and the splits may bear names that look like the state files of diamonds and splits
+		drepo := []string{"a", "a", "split-a", "diamond-a"}[r.Intn(4)]
+		for _, nm := range []string{"ab", drepo} {
 			must(env.CreateRepo(nil, nm))
 		}
 		base := time.Now().Add(-time.Hour)
@@ -310,34 +312,40 @@ func run07(c drv.Case, res *drv.Result) {
 		var ds []dinfo
 		for i := 0; i < p.N; i++ {
 			id := coreh.KSUIDAt(base.Add(time.Duration(i)*time.Second), uint64(r.Int63()))
-			d, err := env.CreateDiamond(nil, "a", id)
+			d, err := env.CreateDiamond(nil, drepo, id)
 			must(err)
 			di := dinfo{id: d.DiamondID}
 			ns := r.Intn(7)
 			done := 0
 			for j := 0; j < ns; j++ {
-				sid := fmt.Sprintf("s-%02d", j)
+				sid := fmt.Sprintf([]string{"s-%02d", "split-%02d", "diamond-%02d"}[i%3], j) // one naming scheme per diamond: key order == creation order
+				state := "done"
 				if r.Intn(5) == 0 { // a split that is only running
-					_, err := env.CreateSplit(nil, "a", id, sid, small.For(nil), 4)
+					state = "running"
+					_, err := env.CreateSplit(nil, drepo, id, sid, small.For(nil), 4)
 					must(err)
 				} else {
 					src := small
 					if bigSrc != nil && i == 0 && j == 0 {
 						src = bigSrc
 					}
-					_, err := env.SplitUpload(nil, "a", id, sid, src.For(nil), 4)
+					_, err := env.SplitUpload(nil, drepo, id, sid, src.For(nil), 4)
 					must(err)
 					done++
 				}
-				di.splits = append(di.splits, sid)
+				di.splits = append(di.splits, sid+"="+state)
 			}
+			dstate := "initialized"
 			switch x := r.Intn(4); {
 			case x == 0:
-				must(env.Cancel(nil, "a", id))
+				must(env.Cancel(nil, drepo, id))
+				dstate = "canceled"
 			case x == 1 && done > 0:
-				_, err := env.Commit(nil, "a", id, model.IgnoreConflicts)
+				_, err := env.Commit(nil, drepo, id, model.IgnoreConflicts)
 				must(err)
+				dstate = "done"
 			}
+			di.id = di.id + "=" + dstate
 			ds = append(ds, di)
 			if r.Intn(5) == 0 {
 				_, err := env.CreateDiamond(nil, "ab", "")
@@ -349,16 +357,19 @@ func run07(c drv.Case, res *drv.Result) {
 		}
 		listers = []lister{
 			{"ListDiamonds", func(o ...core.Option) ([]string, error) {
-				xs, err := core.ListDiamonds("a", st, o...)
+				xs, err := core.ListDiamonds(drepo, st, o...)
 				var out []string
 				for _, x := range xs {
-					out = append(out, x.DiamondID)
+					out = append(out, x.DiamondID+"="+fmt.Sprint(x.State))
 				}
 				return out, err
 			}},
 			{"ListDiamondsApply", func(o ...core.Option) ([]string, error) {
 				var out []string
-				err := core.ListDiamondsApply("a", st, func(x model.DiamondDescriptor) error { out = append(out, x.DiamondID); return nil }, o...)
+				err := core.ListDiamondsApply(drepo, st, func(x model.DiamondDescriptor) error {
+					out = append(out, x.DiamondID+"="+fmt.Sprint(x.State))
+					return nil
+				}, o...)
 				return out, err
 			}},
 		}
@@ -371,16 +382,19 @@ func run07(c drv.Case, res *drv.Result) {
 				want = d.splits
 				ls := []lister{
 					{"ListSplits", func(o ...core.Option) ([]string, error) {
-						xs, err := core.ListSplits("a", d.id, st, o...)
+						xs, err := core.ListSplits(drepo, strings.SplitN(d.id, "=", 2)[0], st, o...)
 						var out []string
 						for _, x := range xs {
-							out = append(out, x.SplitID)
+							out = append(out, x.SplitID+"="+fmt.Sprint(x.State))
 						}
 						return out, err
 					}},
 					{"ListSplitsApply", func(o ...core.Option) ([]string, error) {
 						var out []string
-						err := core.ListSplitsApply("a", d.id, st, func(x model.SplitDescriptor) error { out = append(out, x.SplitID); return nil }, o...)
+						err := core.ListSplitsApply(drepo, strings.SplitN(d.id, "=", 2)[0], st, func(x model.SplitDescriptor) error {
+							out = append(out, x.SplitID+"="+fmt.Sprint(x.State))
+							return nil
+						}, o...)
 						return out, err
 					}},
 				}
